@@ -6,10 +6,10 @@
 (* boundary; refused requests are interleaved with them.                       *)
 EXTENDS Tracker, Json, IOUtils
 
-CONSTANTS Interval, MaxReorg, Trusted, NL, H0, PreWin, TipFh, MaxDev, PopFirst, KeepDecode, Depth
+CONSTANTS Interval, MaxReorg, Trusted, NL, H0, PreWin, Below, Deep, TipFh, MaxDev, PopFirst, KeepDecode, Depth
 VARIABLES s, hist, w
 
-K == [interval |-> Interval, maxReorg |-> MaxReorg, trusted |-> Trusted,
+K == [interval |-> Interval, maxReorg |-> MaxReorg, trusted |-> Trusted, deep |-> Deep,
       popFirst |-> PopFirst, keepDecode |-> KeepDecode]
 Contents == IF NL = 2 THEN {"e", "f1", "d1", "f2", "d2"} ELSE {"e", "f1", "d1"}
 Reqs == Requests(MaxDev, Contents, {0, 2, 3, -1, -2})
@@ -18,9 +18,12 @@ Hdr(i, fh) == [id |-> "A" \o ToString(i), p |-> IF i = 0 THEN "?" ELSE "A" \o To
                c |-> "b", lvl |-> 0, fh |-> fh]
 Listener(k) == [w |-> {NameI(k)}, s |-> {}, tw |-> 1,
                 m |-> [h |-> H0, fund |-> -1, ds |-> -1, fo |-> "-", sb |-> FALSE, other |-> FALSE]]
-\* base chain A0 .. A(PreWin+1); the tip is the last one
-InitState == [h |-> H0, tip |-> Hdr(PreWin + 1, TipFh),
-              win |-> [i \in 1..PreWin |-> Hdr(PreWin + 1 - i, "ok")],
+\* base chain A0 .. A(PreWin+1+Below); the tip is the last one, PreWin headers below it are
+\* remembered, Below+1 more are known to the node only (Deep: removals may go down there)
+Top == PreWin + 1 + Below
+InitState == [h |-> H0, tip |-> Hdr(Top, TipFh),
+              win |-> [i \in 1..PreWin |-> Hdr(Top - i, "ok")],
+              anc |-> [i \in 1..(Below + 1) |-> Hdr(Below + 1 - i, "ok")],
               ls |-> [k \in 1..NL |-> Listener(k)], tds |-> FALSE, mds |-> FALSE]
 
 Weight(st, r) == LET o == Step(st, r, K) IN
